@@ -43,7 +43,14 @@ CHECKS = {
  'C15': dict(engine='E3-seqbfs', category='model_checking', design='DESIGN.md 5, 9/C15, harness/C15/NOTES.md',
    technique='exhaustive enumeration of builder operation sequences on the real DNS/RADIUS builders (every section-ordered add sequence up to the depth bound into every buffer capacity; every attribute sequence x code x secret), each compared with independent RFC 1035 / RFC 2865 / RFC 2869 reference encoders and verifiers; all single-byte corruptions',
    text='Every DNS message built by a sequence of <=3 (quick) / <=5 (thorough) add operations into every capacity from header-only to exactly-fits+1 must validate, parse back field for field and be byte-identical to an independent RFC 1035 encoder (a failing add leaves the message unchanged); 69904 names round-trip. Every RADIUS packet (6 codes x attribute sequences <=3 x 4 secrets) signed by the library must verify and equal the reference authenticators (own MD5/HMAC-MD5 checked against hashlib at run time); for every single-byte/bit corruption and wrong secret the library decision equals the reference verifier decision.',
-   note='No name compression (the library does not compress); names > 253 bytes only observed; accounting Message-Authenticator is the de-facto construction; see harness/C15/NOTES.md.'),
+   note='No name compression (the library does not compress); names > 253 bytes only observed; accounting Message-Authenticator is the de-facto construction; see harness/C15/NOTES.md.'), 'C19': dict(engine='E3-seqbfs', category='model_checking', design='DESIGN.md 5, 9/C19, harness/C19/NOTES.md',
+   technique='explicit-state breadth-first search whose transition function is the real ring buffer API on lossless snapshots of the real object, canonical state hashing, byte-stream reference model with per-reader expected position evaluated on every transition and observer',
+   text='From fresh rings and from rings seeded one cycle before the round counter wraps (3 sizes x 3 minimum block sizes x 2 commit calls x 1-2 readers), every sequence of writer steps (get, commit with/without leading offset, forced wrap, aborted write) and reader steps (bounded/unbounded get, advance by all/1/0) is explored level by level to a state target; every region must lie inside the storage, concatenate to the written stream in order without repetition, a skip must have been reported as dropped, and avail_size must equal a full read.',
+   note='Depth is bounded by a per-job state target (completed depth per job is in the evidence); exact drop_size values are recorded, not enforced; r_buf_rpos_calc_size crashing on cursors across the counter wrap is recorded as an observation outside the statement; see harness/C19/NOTES.md.'),
+ 'C08': dict(engine='E3-seqbfs', category='model_checking', design='DESIGN.md 5, 7, 9/C08, harness/C08/NOTES.md',
+   technique='partition-confluence state exploration of the real streaming cipher (states = stream position per configuration, transitions = crypt of the next c bytes under every alignment/in-place/keystream-only variant, each checked against an independent reference key stream and for context confluence) across a compiler/optimisation build matrix; exhaustive 2^32 sweep of the GOST substitution step',
+   text='ChaCha 8/12/20 x 128/256-bit keys x counters around the 2^32 and 2^64 wraps: every (position, chunk, alignment variant) transition up to 4 blocks+1 must emit the reference key stream and leave the same live context as a single call, so every split gives the same stream; one-shot chacha/xchacha/hchacha and the block API likewise; gcc/clang x -O0..-O3 x with/without -fno-strict-aliasing. GOST 28147-89: substitution+rotate over all 2^32 inputs x 6 S-box sets (thorough) for expanded and small tables against a 6-line reference; block encrypt/decrypt/MAC on structural alphabets, all alignments, decrypt inverts encrypt, published vectors.',
+   note='S-box values and ChaCha constants are anchored by the published vectors the header carries and by openssl enc -chacha20 (checked at run time); key/nonce/plaintext values outside the alphabets are not covered; the 32-bit ChaCha path cannot be built in this image.'),
 }
 
 REASON_WIP = 'check not finished yet in this session (harness under construction; see DESIGN.md section 13)'
